@@ -15,9 +15,9 @@ import (
 
 func init() {
 	register("C09",
-		"DECIDED: D1 tag table — for every Set*/Add* method of the streaming builders the first appended varint equals (fieldNumber<<3)|wireType with number and type parsed from the struct tag of the same-named field of the generated message (protobuf, protobuf_key, protobuf_val; a packed repeated scalar may be written unpacked with the element's wire type), and the value is written with the encoding of that kind: fixed64 ↔ AppendFixed64(Float64bits(v)), zigzag32 ↔ AppendVarint(EncodeZigZag(int64(v))), varint ↔ AppendVarint(v), bytes ↔ tag, length of the sub-buffer, then both written in that order after the callback filled a reset sub-buffer. "+
+		"DECIDED: D1 tag table — for every Set*/Add* method of the streaming builders the first appended varint equals (fieldNumber<<3)|wireType with number and type parsed from the struct tag of the same-named field of the generated message (protobuf, protobuf_key, protobuf_val; the tag is appended to a scratch truncated to length 0 — in the append itself or by the statement before it; a packed repeated scalar may be written unpacked with the element's wire type), and the value is written with the encoding of that kind: fixed64 ↔ AppendFixed64(Float64bits(v)), zigzag32 ↔ AppendVarint(EncodeZigZag(int64(v))), varint ↔ AppendVarint(v), bytes ↔ tag, length of the sub-buffer, then both written in that order after the callback filled a reset sub-buffer. "+
 			"D2 ToProto ↔ EncodeProto correspondence for the dense, sparse and paginated stores and the sketch: same set of message fields / builder setters, each fed from the same normalised term (same receiver field, conversion, window), sub-messages go to the same side, empty stores behave alike. "+
-			"D3 rebuild path — FromProtoWithStoreProvider feeds PositiveValues into the store that becomes the positive store (same for negative), copies ZeroCount, builds the mapping from pb.Mapping and returns its error; MergeWithProto (both copies) adds BinCounts[k] at int(k) AND ContiguousBinCounts[i] at i + int(offset). D4 kind round trip = C19-D1. "+
+			"D3 rebuild path — FromProtoWithStoreProvider feeds PositiveValues into the store that becomes the positive store (same for negative), copies ZeroCount, builds the mapping from pb.Mapping and returns its error; FromProto returns that function's result for its own message on every path; MergeWithProto (both copies) adds BinCounts[k] at int(k) AND ContiguousBinCounts[i] at i + int(offset). D4 kind round trip = C19-D1. "+
 			"SHARED (re-evaluated here under its home rule id): C19-D1 protobuf part — for each mapping kind the interpolation enum and (gamma, offset) written by ToProto and by the streaming EncodeProto are the ones whose FromProto arm constructs that same kind. "+
 			"NOT DECIDED: behaviour of the protobuf runtime; bit-for-bit equality of weights (follows from float64 transport).",
 		"one obligation per builder method (tag + value encoding), per store/sketch correspondence clause, per rebuild clause",
@@ -191,6 +191,29 @@ func c09CheckMethod(c *Ctx, rule, key string, f *ssa.Function, kind string, num 
 		}
 		tagT := apps[0].Args[1]
 		tagOK := tagT.Op == "const" && tagT.Sym == strconv.FormatUint(want, 10) && strings.HasSuffix(apps[0].Sym, "AppendVarint")
+		// the tag starts a fresh scratch: it is appended to scratch[:0] (a builder is reused across fields and, after
+		// Reset, across messages: appending to the untruncated scratch re-emits the previous field in front of this one)
+		{
+			dst := apps[0].Args[0].unver()
+			// `x.scratch = x.scratch[:0]` as a statement of its own: the value appended to is the last one stored
+			// into the same field before the append
+			appSeq, dstKey := -1, dst.Key()
+			for _, e := range p.Calls() {
+				if e.Call == apps[0] {
+					appSeq = e.Seq
+				}
+			}
+			for _, e := range p.Writes() {
+				if e.Kind == "store" && e.Seq < appSeq && e.Addr != nil && e.Addr.unver().Key() == dstKey {
+					dst = e.Val.unver()
+				}
+			}
+			fresh := dst.Op == "slice" && len(dst.Args) == 3 && dst.Args[2].isConst("0") && (dst.Args[1].Op == "none" || dst.Args[1].isConst("0"))
+			if !fresh {
+				tagOK = false
+				found = "the tag is appended to " + dst.Key() + " instead of a scratch truncated to length 0"
+			}
+		}
 		// the tag starts a fresh scratch: appended to scratch[:0] (or scratch was truncated just before)
 		valOK := false
 		v := apps[1]
@@ -554,6 +577,21 @@ func c09Rebuild(c *Ctx, a *sketchAnchors) {
 			nOK++
 		}
 		c.R.check(bad == "" && nOK > 0, rule, "FromProtoWithStoreProvider", shortFn(f), c.fpos(f), "PositiveValues→positive store, NegativeValues→negative store, ZeroCount copied, mapping from pb.Mapping with its error returned", firstNonEmpty(bad, fmt.Sprintf("%d success path(s)", nOK)))
+	}
+	// the convenience entry point rebuilds through the provider form (or would have to meet the same obligations)
+	if g := c.P.Func(pkgSketch, "FromProto"); g != nil {
+		ps, _ := exec(c, g, nil, 1)
+		ok := len(ps) > 0
+		found := ""
+		for _, p := range ps {
+			r := p.RetT[0]
+			del := r.Op == "extract" && r.Args[0].Op == "call" && r.Args[0].Sym == funcName(f) && len(r.Args[0].Args) == 2 && r.Args[0].Args[0].isParam(0)
+			if !del {
+				ok = false
+				found = describeRet(p)
+			}
+		}
+		c.R.check(ok, rule, "FromProto/delegates", shortFn(g), c.fpos(g), "FromProto(pb) returns FromProtoWithStoreProvider(pb, …) — the rebuild path whose obligations are decided above", firstNonEmpty(found, "delegates"))
 	}
 	// MergeWithProto: both loops
 	var fns []*ssa.Function
